@@ -91,9 +91,10 @@ func readFromFirst(ops []op) bool {
 	return false
 }
 
-// bypassSuffix narrows a failure class to the one configuration in which the unchanged tree is
-// known to lose the deferred status / open the encoder after plain bytes: minimum_length < 0 makes
-// ReadFrom hand the reader straight to the wrapped writer without going through Write.
+// bypassSuffix marks a failure class that arises in the configuration fixed by /repo commit 954786b:
+// minimum_length < 0 made ReadFrom hand the reader straight to the wrapped writer without going
+// through Write (deferred status lost, encoder opened by Close after plain bytes). Not a known
+// finding any more — a failure of this class is a regression and a VIOLATION like any other.
 const bypassSuffix = "/minimum_length<0,ReadFrom-first"
 
 func hasStatus(ops []op, s int) bool {
